@@ -142,6 +142,45 @@ def run(ctx):
                     continue
                 purity(ctx, d3, f, inplace)
 
+    # ---------------- D3b: no value-returning function builds its result on the storage of an existing vector
+    d3b = ctx.rule('D3b', 'results are never built on an operand\'s storage (from_dict / returned dicts)', floor=60)
+    allf = []
+    for c in classes:
+        seen = set()
+        for f in list(c.methods.values()):
+            if f.cls is c and id(f) not in seen:
+                seen.add(id(f))
+                allf.append(f)
+    allf += list(m.functions.values())
+    for f in allf:
+        nm = f.name
+        if nm.startswith('_i') or nm.startswith('__i') and nm not in ('__iter__', '__init__', '__invert__', '__index__') or nm in (
+                'from_dict', 'from_set', 'dct', 'set', '__init__', 'from_rows', 'sparse_vector', 'sparse_array', 'sparse'):
+            continue
+        if not any(isinstance(n, ast.Call) and isinstance(n.func, ast.Attribute) and n.func.attr in ('from_dict', 'from_set') for n in walk_no_nested(f.node)) \
+                and f.cls is not None:
+            continue
+        try:
+            ps, trunc = run_paths(f.node, max_paths=3000, follow_except=False)
+        except RecursionError:
+            d3b.skip(f.qualname, 'recursion limit', f)
+            continue
+        bad = None
+        for p in ps:
+            if p.raised:
+                continue
+            for e in p.events:
+                if e.kind == 'call' and e.target.split('.')[-1] in ('from_dict', 'from_set') and e.value:
+                    a = e.value[0].pretty()
+                    if re.search(r'\.(dct|set)$', a) and not a.endswith('.copy()'):
+                        bad = (e.stmt, 'the result is built on %s, the storage of an existing vector' % a)
+            if f.cls is None and p.ret is not None and re.search(r'\.(dct|set)$', p.ret.pretty()):
+                bad = (p.ret_node, 'returns %s, the storage of an existing vector, as the storage of a new one' % p.ret.pretty())
+        if bad:
+            d3b.fail(f.qualname, 'result-aliases-operand', bad[1] + ': writing the result writes the operand', f, bad[0])
+        else:
+            d3b.ok(f.qualname, 'every result is built on fresh storage (%d paths)' % len(ps), f)
+
     # ---------------- D4
     pat = re.compile(r'^_i?(add|sub|mul|truediv|and|xor|or|eq|ne|gt|lt|ge|le)_[a-z]+$')
     for c in classes:
